@@ -36,8 +36,8 @@ MaxEff(i) == IF Fed(i) = <<>> THEN BigTs ELSE SetMax({Fed(i)[k].e : k \in DOMAIN
 Lo(i) == MinEff(i) + Buf
 Hi(i) == MaxEff(i) - Buf
 Ok(i) == Tr[i].post.status = "ok"
-SelOfRun(i) == IF \E k \in 1..i : Tr[k].op = "ug" /\ Tr[k].run = Tr[i].run
-                 THEN Tr[CHOOSE k \in 1..i : Tr[k].op = "ug" /\ Tr[k].run = Tr[i].run].sel
+SelOfRun(i) == IF \E k \in 1..i : Tr[k].op \in {"ug", "filter"} /\ Tr[k].run = Tr[i].run
+                 THEN Tr[CHOOSE k \in 1..i : Tr[k].op \in {"ug", "filter"} /\ Tr[k].run = Tr[i].run].sel
                  ELSE NoSel
 
 (* ---------------- clauses ---------------- *)
@@ -53,7 +53,7 @@ C11incons(i) == (Tr[i].op = "clean1" /\ Ok(i)) => CleanInconsistentP(Prev(i).nod
 C11window(i) == (Tr[i].op = "clean2" /\ Ok(i)) => CleanWindowP(Prev(i).nodes, Tr[i].post.nodes, Lo(i), Hi(i))
 C11names(i) == (Tr[i].op = "clean3" /\ Ok(i)) => CleanNamesP(Prev(i).nodes, Tr[i].post.nodes)
 \* nothing but the three cleaning steps and the ingestion changes the table of spans
-C11frame(i) == (Tr[i].op \in {"open", "ug", "stream", "end"}) => Tr[i].post.nodes = Prev(i).nodes
+C11frame(i) == (Tr[i].op \in {"open", "ug", "filter", "stream", "end"}) => Tr[i].post.nodes = Prev(i).nodes
 \* C11 frame through the pipeline: PV sequences of the traces output by this scenario and by its twin (the same
 \* scenario without the traces that were removed) are identical
 PvOf(tr) == LET k == CHOOSE k \in DOMAIN tr : tr[k].op = "stream" /\ \A m \in DOMAIN tr : tr[m].op = "stream" => m <= k
@@ -78,7 +78,7 @@ C12pv(i) == (Tr[i].op = "stream" /\ Ok(i)) =>
                                       /\ {e.eid : e \in p.evs} = {s.eid : s \in o.spans}
                                       /\ \A e \in p.evs : e.job = o.job /\ e.jname = o.name
 \* the stream (and the sequencing of what it yields) does not die: a run that got through cleaning and selection ends normally
-C12completes(i) == (Tr[i].op = "end" /\ i > 1 /\ Tr[i - 1].op \in {"clean3", "ug"} /\ Tr[i - 1].post.status = "ok") =>
+C12completes(i) == (Tr[i].op = "end" /\ i > 1 /\ Tr[i - 1].op \in {"clean3", "ug", "filter"} /\ Tr[i - 1].post.status = "ok") =>
                       Tr[i].post.status = "ok"
 \* C15: every run completes; any two runs give the same PV sequence for every trace both of them output; all
 \* unique-graph runs on the ingested store select the same shape classes
